@@ -69,7 +69,8 @@ def gen(rng, broker, tier):
                 pre.append(["callback", rng.choice(["cb1", "cb2", "raise-cb"])])
             if j["store_result"] and rng.random() < 0.2:
                 pre.append(["set_result", {"v2": i}])
-            first = {"do": "eager", "eager": {"call": call, "pre": pre}, "dur_us": rng.choice([0, 2000])}
+            guard = rng.choice([None, None, "swallow", "fallback"]) if call != "retry" else None
+            first = {"do": "eager", "eager": {"call": call, "pre": pre, "guard": guard}, "dur_us": rng.choice([0, 2000])}
             j["beh"] = [first, {"do": rng.choice(["return", "raise"])}, {"do": "return"}]
             j["msg_dep"] = True
         jobs.append(j)
